@@ -160,6 +160,16 @@ class Shard:
                 masked.add(state['target'])
                 self.count(f'{part}.history_dependent_failure')
                 continue
+            except Exception:  # noqa: BLE001
+                # an internal error of the test library while it was shrinking an observed failure (seen: ValueError in
+                # its string shrinker): the failure stands, with the smallest failing case seen so far
+                if state['target'] is None or state['case'] is None:
+                    raise
+                self.fail(state['target'], '[shrinking aborted by an error inside the test library] ' + str(state['detail']),
+                          state['case'], part)
+                masked.add(state['target'])
+                self.count(f'{part}.shrink_aborted')
+                continue
             break
 
     def summary(self):
